@@ -56,6 +56,11 @@ var c18Scenarios = []c18Scenario{
 	{name: "count-1", n: 1, query: `count_over_time({}[2s])`, params: c18Range()},
 	{name: "count-3", n: 3, query: `count_over_time({}[2s])`, params: c18Range()},
 	{name: "sumby-3", n: 3, query: `sum by (container_image) (count_over_time({}[2s]))`, params: c18Range()},
+	// grouped topk with two groups, one of them holding two series (values pairwise distinct: no ties to break); windows
+	// longer than the step; a ratio of two vectors of three series each
+	{name: "topk-groups-3", n: 3, msg: func(i, j int) string { return strings.Repeat("x", 1+i) }, query: `topk by (container_image) (1, bytes_over_time({}[4s]))`, params: c18Range()},
+	{name: "count-sliding-3", n: 3, query: `count_over_time({}[3s])`, params: logqlengine.EvalParams{Start: otelstorage.Timestamp(1 * c18sec), End: otelstorage.Timestamp(6 * c18sec), Step: time.Second, Limit: -1}},
+	{name: "ratio-3", n: 3, query: `sum by (container) (count_over_time({} |= "-1" [4s])) / sum by (container) (count_over_time({}[4s]))`, params: c18Range()},
 	{name: "binop-2", n: 2, query: `sum by (container) (count_over_time({}[2s])) * sum by (container) (count_over_time({} |= "m"[4s]))`, params: c18Range()},
 	{name: "colliding-labels-2", n: 2, query: `{a_b=~".+"}`, params: c18Log(), labels: func(i int) map[string]string {
 		return map[string]string{"a.b": "dot", "a-b": "dash", "a/b": "slash"}
